@@ -48,7 +48,19 @@ def ost_probe():
             {"k": "reconn"},
             dict(rd, tag={"probe": "read1"}), {"k": "adv", "dt": 1010, "tag": {"probe": "read1"}},
             {"k": "reconn"},
-            dict(rd, tag={"probe": "read1"}), {"k": "adv", "dt": 1010, "tag": {"probe": "read"}}]
+            dict(rd, tag={"probe": "read1"}), {"k": "adv", "dt": 1010, "tag": {"probe": "read"}}] + busy_probe()
+
+
+def busy_probe():
+    """a peer that never falls silent: after a reconnection (the outstation, where it reports unsolicited, is waiting
+    for a confirm) a READ is sent and repeated every 400 ms for 3.6 s - longer than any wait of the session; it must be
+    answered while the repetitions go on"""
+    rd = {"k": "rx", "fn": "read", "hdrs": [{"g": 60, "v": 1, "q": 6}]}
+    out = [{"k": "reconn", "tag": {"probe": "busy1"}}, dict(rd, seq="far", tag={"probe": "busy1"}), {"k": "adv", "dt": 400, "tag": {"probe": "busy1"}}]
+    for _ in range(7):
+        out += [dict(rd, seq="same", tag={"probe": "busy1"}), {"k": "adv", "dt": 400, "tag": {"probe": "busy1"}}]
+    out += [dict(rd, seq="same", tag={"probe": "busy1"}), {"k": "adv", "dt": 5, "tag": {"probe": "busy"}}]
+    return out
 
 
 def mst_probe(pid):
@@ -178,7 +190,9 @@ def run(tier, replay=None):
                         probe = tag.get("probe", "") if isinstance(tag, dict) else ""
                         ltx = [x.get("fn", "") for x in r.get("ltx", [])]
                         tx = [{"fc": x.get("fc", -1), "seq": x.get("seq", -1)} for x in r.get("tx", [])]
-                        if "frag" in r and probe in ("read1", "read"):
+                        if probe == "busy1" and r.get("k") == "reconn":
+                            acc_tx = []
+                        if "frag" in r and probe in ("read1", "read", "busy1"):
                             rxseq = r["frag"].get("seq", -1)
                         dones = [str(d[2]) for d in r.get("done", []) if isinstance(d, list) and len(d) > 2 and isinstance(d[1], int) and d[1] >= 9000]
                         if probe == "m1":
@@ -193,9 +207,11 @@ def run(tier, replay=None):
                             probe = ""
                         elif probe == "link":
                             ltx = acc_ltx + ltx
-                        elif probe == "read1":
+                        elif probe in ("read1", "busy1"):
                             acc_tx += [x for x in tx if x["seq"] == rxseq]
                             probe = ""
+                        elif probe == "busy":
+                            tx = acc_tx + tx
                         elif probe == "read":
                             tx = acc_tx + tx
                             # any of the probe READs answered counts
